@@ -57,6 +57,35 @@ CHECKS = {
             'arguments received by each continuation and the final outcome are compared with a model of the statement.',
             'Trusts the reference model and the small value domains listed in the evidence rule; steps are synchronous.',
             'DESIGN.md 3 C13'),
+    'C11': ('input-enumerator',
+            'bounded-exhaustive enumeration of input specs x nested input dictionaries on the real Process constructor, '
+            'against a reference model of port namespaces',
+            'Every InputPort attribute combination and every nested-namespace attribute combination (required, '
+            'valid_type, default plain/callable, validator, dynamic, populate_defaults; nesting depth 3) is built as a '
+            'real spec and every nested input dictionary over a small value domain is given to the constructor; whether '
+            'it raises, the parsed inputs, raw_inputs, read-only-ness and the caller dictionary are compared with '
+            'pv/refports.py.',
+            'Trusts the reference model (written from the statement and the port docstrings); cases the statement does '
+            'not define are outside the alphabet (listed in the evidence assumptions); no random part.', 'DESIGN.md 3 C11'),
+    'C12': ('input-enumerator',
+            'bounded-exhaustive enumeration of output specs x emission sequences x final returns on the real Process, '
+            'against a reference model of port namespaces',
+            'Every output spec of the family x every sequence of <=2 (thorough 3) emissions over declared, undeclared and '
+            'nested-dynamic paths and values x final return is run; acceptance of each out(), the stored outputs, the '
+            'exception type, listener notifications, result preservation and the success flag are compared with '
+            'pv/refports.py.',
+            'Trusts the reference model; a fresh class per run; mappings as values and paths through leaf ports are '
+            'outside the alphabet.', 'DESIGN.md 3 C12'),
+    'C15': ('input-enumerator',
+            'bounded-exhaustive enumeration of include/exclude rule sets over colliding-name port trees on the real '
+            'expose_inputs/expose_outputs/absorb, against a path-set selection model',
+            'For three source trees whose names are string prefixes of each other, every include and exclude rule set '
+            '(<=2, thorough <=3 paths, no ancestor pairs) x target namespace x namespace option overrides x '
+            'expose_inputs/expose_outputs/absorb is executed; the destination tree and namespace properties are compared '
+            'with a set-algebra model and both sides are mutated to check independence; include+exclude and unknown '
+            'options must be rejected.',
+            'Trusts the selection model (written from the statement); empty rule lists and rules naming an ancestor of '
+            'another rule are outside the alphabet.', 'DESIGN.md 3 C15'),
 }
 
 ALL = [f'C{i:02d}' for i in range(1, 21)]
